@@ -180,10 +180,31 @@ def check(chk):
     import re
     cc = cl.cls('ControlConnection')
     consts = {}
+    def _const_str(e):
+        # a query text written as a literal, or derived from earlier ones by +, % and .format with literal arguments
+        if isinstance(e, ast.Constant) and isinstance(e.value, str):
+            return e.value
+        if isinstance(e, ast.Name) and e.id in consts:
+            return consts[e.id][1]
+        if isinstance(e, ast.BinOp) and isinstance(e.op, ast.Add):
+            l_, r_ = _const_str(e.left), _const_str(e.right)
+            return l_ + r_ if l_ is not None and r_ is not None else None
+        if isinstance(e, ast.Call) and isinstance(e.func, ast.Attribute) and e.func.attr == 'format' and not e.args:
+            base = _const_str(e.func.value)
+            kw = dict((k.arg, _const_str(k.value)) for k in e.keywords)
+            if base is None or None in kw.values() or None in kw:
+                return None
+            try:
+                return base.format(**kw)
+            except (KeyError, IndexError, ValueError):
+                return None
+        return None
     for st in cc.body:
-        if isinstance(st, ast.Assign) and isinstance(st.targets[0], ast.Name) and isinstance(st.value, ast.Constant) and isinstance(st.value.value, str) \
-                and st.targets[0].id.startswith('_SELECT_'):
-            consts[st.targets[0].id] = (st, st.value.value)
+        if isinstance(st, ast.Assign) and isinstance(st.targets[0], ast.Name) and st.targets[0].id.startswith('_SELECT_'):
+            v_ = _const_str(st.value)
+            if v_ is None:
+                raise AnalysisError('ControlConnection.%s: query text not a constant expression (%s)' % (st.targets[0].id, src(st.value)[:60]))
+            consts[st.targets[0].id] = (st, v_)
 
     def cols(q):
         m_ = re.match(r'\s*SELECT\s+(.*?)\s+FROM\s+(\S+)', q, re.I | re.S)
